@@ -423,3 +423,9 @@ for _pid, _t in (("C04", "TestC04Bootstrap"), ("C18", "TestC18Bootstrap"), ("C03
     for _x in PLAN[_pid]["thorough"]["tests"]:
         if _x["run"] == _t:
             _x["checks"] = 700
+
+PLAN["C15"]["quick"]["tests"][2]["shards"] = 8
+PLAN["C15"]["quick"]["tests"].append({"run": "TestC15Detach", "shards": 2, "checks": 25, "timeout": 120, "env": {"VERIF_NOSHRINK": 1}})
+PLAN["C15"]["thorough"]["tests"].append({"run": "TestC15Detach", "shards": 2, "checks": 500, "timeout": 840, "env": {"VERIF_NOSHRINK": 1}})
+PLAN["C15"]["rule"] += ("; TestC15Detach: stack programs (real controller, RF 2-3) in which data connections are closed by the replica side while idle or with a request in flight, "
+                        "requests stall beyond or complete after their deadline and pings fail: the replica is detached (within 30 s at the latest) and the request in flight ends")
